@@ -28,7 +28,7 @@ theorem seenBy_nodup_step {s : Net} {op : Op} (h : ∀ f, f ∈ s.flight → f.a
   intro f hf
   cases flight_step hf with
   | old h' => exact h f h'
-  | ann hop ha hd hadv => rw [hadv]; simp [announceAdv]
+  | ann hint hop ha hd hadv => rw [(mem_announceAdvs hadv).seenBy]; simp
   | fwd a m hm hl ha hb hd hne hns hself hseen hsb hlim hadv =>
     rw [hadv, fwdAdv_seenBy]
     have := h _ hm
@@ -39,9 +39,7 @@ theorem seenBy_nodup_step {s : Net} {op : Op} (h : ∀ f, f ∈ s.flight → f.a
     intro hxy; subst hxy
     exact hsb hx
   | wdr hop ha hcidr hd hadv => rw [hadv]; simp [withdrawAdv]
-  | rep ord hop ha hb hl hadv =>
-    obtain ⟨o, sq, _, _, hm⟩ := mem_replayAdvs hadv
-    rw [hm]; simp [replayGroup]
+  | rep ord hop ha hb hl hadv => rw [(mem_replayAdvs hadv).seenBy]; simp
 
 theorem C11_seenby_nodup (n mh : Nat) (L : Node → List RAd) (ops : List Op) :
     ∀ f, f ∈ (run (init n mh L) ops).flight → f.adv.seenBy.Nodup :=
@@ -206,7 +204,7 @@ theorem C11_deliver_decreases (s : Net) (a b i : Nat) (h : Effective s a b i) :
 
 /-- Ops that create no traffic. (`announce`, `replay` and `dup` are the only ones that do.) -/
 def quiet : Op → Bool
-  | .announce _ => false
+  | .announce _ _ => false
   | .withdraw _ => false
   | .replay _ _ _ => false
   | .dup _ _ _ => false
@@ -222,9 +220,18 @@ theorem muL_eraseIdx_le (n : Nat) (l : List Flight) (pos : Nat) : muL n (l.erase
     have := sum_map_eraseIdx l (fun f => (n + 1) ^ weight n f.adv) pos x h
     omega
 
+theorem muL_filter_le (n : Nat) (l : List Flight) (p : Flight → Bool) : muL n (l.filter p) ≤ muL n l := by
+  induction l with
+  | nil => exact Nat.le_refl _
+  | cons x t ih =>
+    simp only [List.filter_cons]
+    split
+    · simp only [muL, List.map_cons, List.sum_cons] at ih ⊢; omega
+    · simp only [muL, List.map_cons, List.sum_cons] at ih ⊢; omega
+
 theorem quiet_not_increasing (s : Net) (op : Op) (hq : quiet op = true) : mu (step s op) ≤ mu s := by
   cases op with
-  | announce a => cases hq
+  | announce a _ => cases hq
   | withdraw a => cases hq
   | replay a b ord => cases hq
   | dup a b i => cases hq
@@ -251,6 +258,10 @@ theorem quiet_not_increasing (s : Net) (op : Op) (hq : quiet op = true) : mu (st
     · exact Nat.le_refl _
   | connect a b =>
     unfold mu; rw [step_n]; simp only [step, stepCore]; split <;> exact Nat.le_refl _
+  | disconnect a b =>
+    unfold mu; rw [step_n]; simp only [step, stepCore]; split
+    · exact muL_filter_le _ _ _
+    · exact Nat.le_refl _
   | expire a o sq =>
     unfold mu; rw [step_n]; simp only [step, stepCore]; split <;> exact Nat.le_refl _
   | stale a age =>
@@ -293,13 +304,21 @@ theorem seen_step_mono {s : Net} {op : Op} {b : Node} {k : Node × Nat}
     k ∈ ((step s op).nodes b).seen := by
   cases op with
   | connect c d => simp only [step, stepCore]; split <;> exact hk
+  | disconnect c d =>
+    simp only [step, stepCore]; split
+    · simp only [setNode_nodes]; split
+      · rename_i hx; subst hx; exact hk
+      · split
+        · rename_i hx; subst hx; exact hk
+        · exact hk
+    · exact hk
   | replay c d ord =>
     simp only [step, stepCore]; split
     · simp only [setNode_nodes]; split
       · rename_i hx; subst hx; exact hk
       · exact hk
     · exact hk
-  | announce c =>
+  | announce c _ =>
     simp only [step, stepCore]; split
     · simp only [setNode_nodes]; split
       · rename_i hx; subst hx; exact hk
@@ -502,7 +521,9 @@ theorem pathInv_step {s : Net} {op : Op} (hI : PathInv s) (hb : benignOp s op = 
     intro f hf
     cases flight_step hf with
     | old h => exact hI.flight f h
-    | ann hop ha hd hadv => rw [hadv]; simp [announceAdv]
+    | ann hint hop ha hd hadv =>
+      have h := mem_announceAdvs hadv
+      rw [h.path, h.seenBy]; simp
     | fwd a m hm hl ha hb' hd hne hns hself hseen hsb hlim hadv =>
       rw [hadv, fwdAdv_seenBy]
       obtain ⟨hnd, hsub⟩ := hI.flight _ hm
@@ -521,12 +542,8 @@ theorem pathInv_step {s : Net} {op : Op} (hI : PathInv s) (hb : benignOp s op = 
     | rep ord hop ha hb' hl hadv =>
       subst hop
       obtain ⟨_, hp⟩ := benign_replay hb hadv
-      obtain ⟨o, sq, _, _, hm⟩ := mem_replayAdvs hadv
-      rw [hp]
-      refine ⟨by simp, ?_⟩
-      intro y hy
-      rw [hm]
-      simpa [replayGroup] using hy
+      rw [hp, (mem_replayAdvs hadv).seenBy]
+      exact ⟨by simp, fun y hy => hy⟩
   entries := by
     intro x e he
     rcases entries_step he with h | ⟨a, m, hm, _, _, _, _, _, _, r, _, rfl⟩
@@ -548,7 +565,7 @@ def exitAt3 : Node → List RAd := fun x => if x = 3 then [⟨0, 1, 0⟩] else [
 
 /-- (i) open finding C11-reprocess-after-expiry: a duplicate that arrives after the key left the
     cache is processed (and flooded) a second time. -/
-def expiryOps : List Op := [.connect 0 1, .announce 0, .dup 0 1 0, .expire 1 0 2, .deliver 0 1 0]
+def expiryOps : List Op := [.connect 0 1, .announce 0 [], .dup 0 1 0, .expire 1 0 2, .deliver 0 1 0]
 
 theorem C11_refuted_expiry : processed 1 (0, 2) (init 2 0 exitAt0) expiryOps = 2 := by decide
 
@@ -557,8 +574,8 @@ theorem C11_refuted_expiry : processed 1 (0, 2) (init 2 0 exitAt0) expiryOps = 2
     reset to [2]; agent 0 — already on the path — floods it on, and agent 4 stores 0-2-1-0-3. -/
 def ringOps : List Op := [
   .connect 0 1, .connect 1 2, .connect 2 0, .connect 0 3, .connect 0 4,
-  .announce 3, .deliver 3 0 0, .deliver 0 1 0, .deliver 1 2 0,
-  .replay 2 0 [3], .deliver 2 0 0, .deliver 0 4 1]
+  .announce 3 [], .deliver 3 0 0, .deliver 0 1 0, .deliver 1 2 0,
+  .replay 2 0 [], .deliver 2 0 0, .deliver 0 4 1]
 
 def ringEntry : Entry :=
   { kind := 0, key := 1, origin := 3, nextHop := 0, metric := 5, path := [0, 2, 1, 0, 3], seq := 1, lu := 12 }
@@ -586,11 +603,11 @@ theorem C11_partial (n mh : Nat) (L : Node → List RAd) (ops : List Op) :
 /-- Vacuity: the hypotheses of `C11_partial` are met by a non-trivial history (a flood over the
     chain 0-1-2 with a duplicate, no expiry, no third-party replay) in which agent 1 does process
     the announcement exactly once although it is delivered twice. -/
-def dupOps : List Op := [.connect 0 1, .connect 1 2, .announce 0, .dup 0 1 0, .deliver 0 1 0, .deliver 1 2 0]
+def dupOps : List Op := [.connect 0 1, .connect 1 2, .announce 0 [], .dup 0 1 0, .deliver 0 1 0, .deliver 1 2 0]
 
 example : benignRun (init 3 0 exitAt0) dupOps = true := by decide
 example : ∀ op, op ∈ dupOps → expires 1 (0, 2) op = false := by decide
 example : processed 1 (0, 2) (init 3 0 exitAt0) dupOps = 1 := by decide
-example : Effective (run (init 3 0 exitAt0) [.connect 0 1, .announce 0]) 0 1 0 := by decide
+example : Effective (run (init 3 0 exitAt0) [.connect 0 1, .announce 0 []]) 0 1 0 := by decide
 
 end MM.C11
